@@ -444,7 +444,7 @@ def malformed_of(rng, f):
 
 def gen_cases(rng, tier, scale):
     cases = []
-    n_sig = int((70 if tier == 'quick' else 1400) * scale)
+    n_sig = int((80 if tier == 'quick' else 1400) * scale)
     for s in range(n_sig):
         r = rng.random()
         mode = 'require' if r < 0.5 else 'pedantic' if r < 0.68 else 'kw' if r < 0.8 else 'class'
@@ -454,9 +454,19 @@ def gen_cases(rng, tier, scale):
             funcs = [gen_func(rng, 'f', tier)]
         base = {'stream': 'docstring', 'mode': mode, 'cls_name': 'K', 'sig': s}
         cases.append(dict(base, kind='consistent', funcs=funcs, expect='ok', depth=0))
+        # the same signature with the docstring respelled (Optional[X] / Union[X, None] / X | None, member order, duplicates,
+        # nested unions) and reordered: still consistent
+        for _ in range(3):
+            fs = []
+            for g in funcs:
+                ps = [[n, respell(rng, t) if rng.random() < 0.7 else t] for n, t in g['doc']['params']]
+                rng.shuffle(ps)
+                rs = g['doc']['returns']
+                fs.append(dict(g, doc={'raw': 'text', 'params': ps, 'returns': None if rs is None else [respell(rng, rs[0])]}))
+            cases.append(dict(base, kind='consistent_respelled', funcs=fs, expect='ok', depth=0))
         k = rng.randrange(len(funcs))
         variants = [(kd, dc, ex, dep, 'near-miss') for kd, dc, ex, dep in edits_of(rng, funcs[k], tier)]
-        variants += [(kd, dc, ex, dep, 'malformed') for kd, dc, ex, dep in malformed_of(rng, funcs[k]) if rng.random() < 0.5]
+        variants += [(kd, dc, ex, dep, 'malformed') for kd, dc, ex, dep in malformed_of(rng, funcs[k]) if rng.random() < 0.5 or (kd == 'no_sections' and mode == 'pedantic')]
         for kd, dc, ex, dep, sub in variants:
             fs = [dict(g) for g in funcs]
             fs[k] = dict(funcs[k], doc=dc)
@@ -684,7 +694,7 @@ def judge_docstring(c, impl, model):
     # self checks of the generator
     gen = None
     edited = mf[c.get('edited', 0)]['flags'] if c['stream'] == 'docstring' and mf else None
-    if c.get('expect') == 'ok' and c['kind'] == 'consistent' and not all(f['consistent'] for f in flags):
+    if c.get('expect') == 'ok' and c['kind'].startswith('consistent') and not all(f['consistent'] for f in flags):
         gen = 'a case generated as consistent is not consistent according to the specification'
     if c.get('expect') == 'pdoc' and edited and edited['consistent']:
         gen = f'edit {c["kind"]} did not make the docstring inconsistent according to the specification'
@@ -812,7 +822,7 @@ def run(tier, seed, replay=None):
             continue
         corr, viol, st = judge_docstring(c, i, m)
         key = json.dumps([c['mode'], c['kind'], c['src']])
-        ck.note_case(key, nontrivial=(c['kind'] != 'consistent' or sum(len(f['params']) for f in c['funcs']) >= 1))
+        ck.note_case(key, nontrivial=(not c['kind'].startswith('consistent') or sum(len(f['params']) for f in c['funcs']) >= 1))
         bump('kind', c['kind']); bump('mode', c['mode']); bump('sub', c.get('sub', 'valid'))
         bump('params', sum(len(f['params']) for f in c['funcs']))
         if c.get('expect') == 'oracle' and c['kind'].startswith(('change_type', 'alter')):
@@ -844,8 +854,8 @@ def run(tier, seed, replay=None):
                   f'{out_of_fragment} cases outside the fragment' if out_of_fragment else
                   'every consistent case is consistent, every structural edit is inconsistent, docstring_parser returns what was written')
         n_dem = sum(v for k, v in hist['demanded'].items() if k in ('ok', 'pdoc'))
-        ck.oblige('generator:coverage-floor', 'correspondence', n_dem >= 0.8 * max(1, len(cases)) and hist['demanded'].get('pdoc', 0) >= 0.3 * len(cases),
-                  f'{n_dem} of {len(cases)} cases inside the quantifier of the property, {hist["demanded"].get("pdoc", 0)} must be rejected')
+        ck.oblige('generator:coverage-floor', 'correspondence', n_dem >= 0.8 * max(1, len(cases)) and hist['demanded'].get('pdoc', 0) >= 0.3 * len(cases) and hist['demanded'].get('ok', 0) >= 0.15 * len(cases),
+                  f'{n_dem} of {len(cases)} cases inside the quantifier of the property, {hist["demanded"].get("pdoc", 0)} must be rejected, {hist["demanded"].get("ok", 0)} must be accepted')
 
     # ---- stream typing
     t_ok, t_dis, t_frag = 0, [], 0
